@@ -144,3 +144,73 @@ PROPS["C02"]["theorems"] = [
     "Lace.C02.execute_no_panic",
     "Lace.regfield_lt",
 ]
+
+
+# ---------------------------------------------------------------- C20
+def c20_classify(rq, impl):
+    f = rq.split(" ")
+    nkeys = 0 if len(f) < 3 or f[2] == "-" else f[2].count(",") + 1
+    if impl.endswith("| panic"):
+        out = "panic"
+    else:
+        out = "submitted%d" % min(impl.count("! "), 3)
+    return "keys%s:%s" % (nkeys if nkeys <= 5 else "6+", out)
+
+
+def c20_nontrivial(rq, impl):
+    # at least one key, and some key changed what the editor shows
+    views = impl.split(" | ")[0].split(" ")
+    return len(set(views)) > 1 or "!" in impl
+
+
+def c20_group(d):
+    f = d["request"].split(" ")
+    keys = [] if len(f) < 3 or f[2] == "-" else f[2].split(",")
+    a = d["impl"].split(" ")
+    b = (d.get("spec") or d.get("model") or "").split(" ")
+    for i, (x, y) in enumerate(zip(a, b)):
+        if x != y:
+            if i < len(keys):
+                k = keys[i]
+                return "first-difference-at-key-" + ("Char" if k.startswith("c") else k)
+            break
+    return "first-difference-after-keys"
+
+
+PROPS["C20"] = {
+    "theorems": [
+        "Lace.C20.editor_no_panic",
+        "Lace.C20.cursor_in_bounds",
+        "Lace.C20.submit_eq_reference",
+        "Lace.C20.commands_eq_split",
+        "Lace.C20.key_step",
+        "Lace.C20.session_inv",
+        "Lace.C20.submitted_not_blank",
+        "Lace.Editor.handleKey_sim",
+        "Lace.Editor.findWordNext_eq",
+        "Lace.Editor.findWordBack_eq",
+        "Lace.Editor.insertCharIndex_eq",
+        "Lace.Editor.removeCharIndex_eq",
+    ],
+    "compare": cmp_default,
+    "classify": c20_classify,
+    "nontrivial": c20_nontrivial,
+    "group": c20_group,
+    "rule": ("every key sequence up to length 4 (thorough: 5) over {a, b, space, +, e-acute (2 bytes), "
+             "U+1F600 (4 bytes), Backspace, Delete, Left, Right, Ctrl+Left, Ctrl+Right, Up, Down, Enter} from the "
+             "histories [], [\"ab c\"], [\"e-acute x\", \"q\"]; random sequences of up to 60 keys with Unicode "
+             "spaces, digits, CJK, combining marks, ASCII control characters and random histories; whole lines "
+             "with `;` after multi-byte characters through read_line + get_next_command; plus a corpus of past "
+             "witnesses. A case is the request line (history, keys); it is non-trivial when some key changes "
+             "what the editor shows or submits a line."),
+    "exhaustive_note": "all key sequences up to length 4 (quick) / 5 (thorough) over the 15-key alphabet from three histories are enumerated",
+    "trusted": [
+        "char::is_whitespace / char::is_alphanumeric are a parameter of model and theorems; the harness sends Rust's own classification of every character of a case",
+        "str::trim().is_empty() is modelled as 'every character is_whitespace'",
+        "terminal drawing (print_prompt, println), raw mode, crossterm key decoding and the history file are not modelled",
+    ],
+    "assumptions": [
+        "I10: history entries are non-blank (lines the editor itself could have stored)",
+        "usize overflow of the cursor (a line of 2^64 characters) is not modelled",
+    ],
+}
